@@ -1,6 +1,8 @@
 #!/bin/sh
-# Offline setup: nothing to fetch. Warm caches lazily on first check.
+# Offline setup after a fresh restore: nothing is fetched. Creates the scratch / cache / evidence directories and warms
+# the build caches (nightly MIR dump of entrait_macros, recorder client, Kani harness crate in its three build flavours).
 set -e
 cd "$(dirname "$0")"
 mkdir -p work .cache evidence
-exit 0
+export CARGO_NET_OFFLINE=true
+exec python3-vt -m vlib.warm
